@@ -101,19 +101,19 @@ fn parse_tree(
 }
 
 fn cmp_with_suffix(a: (u32, &[u8]), b: (u32, &[u8])) -> std::cmp::Ordering {
-    let len = std::cmp::min(a.1.len(), b.1.len());
-    let cmp = a.1[..len].cmp(&b.1[..len]);
-    if cmp != std::cmp::Ordering::Equal {
-        return cmp;
+    // Compare the whole of name + "/" (directories) or name (anything else),
+    // as key_entry does in Python: looking at a single byte past the common
+    // prefix is not a total order once a name contains "/" or NUL.
+    fn suffix(mode: u32) -> &'static [u8] {
+        if (mode & S_IFMT) == S_IFDIR {
+            b"/"
+        } else {
+            b""
+        }
     }
-
-    let c1 =
-        a.1.get(len)
-            .map_or_else(|| if (a.0 & S_IFMT) == S_IFDIR { b'/' } else { 0 }, |&c| c);
-    let c2 =
-        b.1.get(len)
-            .map_or_else(|| if (b.0 & S_IFMT) == S_IFDIR { b'/' } else { 0 }, |&c| c);
-    c1.cmp(&c2)
+    a.1.iter()
+        .chain(suffix(a.0))
+        .cmp(b.1.iter().chain(suffix(b.0)))
 }
 
 /// Iterate over a tree entries dictionary.
